@@ -56,8 +56,8 @@ func applyUnifiedDiff(dir string, diff string) (map[string][]byte, error) {
 	i := 0
 	for i < len(lines) {
 		if !strings.HasPrefix(lines[i], "--- ") {
-			if strings.HasPrefix(lines[i], "rename from") || strings.HasPrefix(lines[i], "deleted file") {
-				return nil, fmt.Errorf("renames and deletions are not replayed in memory")
+			if strings.HasPrefix(lines[i], "rename from") {
+				return nil, fmt.Errorf("renames are not replayed in memory")
 			}
 			i++
 			continue
@@ -79,7 +79,28 @@ func applyUnifiedDiff(dir string, diff string) (map[string][]byte, error) {
 			return s
 		}
 		if newName == "/dev/null" {
-			return nil, fmt.Errorf("deletions are not replayed in memory")
+			// a deleted file: an overlay cannot remove a file, but a file that holds nothing but its package
+			// clause contributes nothing to the package
+			path := filepath.Join(dir, strip(oldName))
+			b, err := os.ReadFile(path)
+			if err != nil {
+				return nil, err
+			}
+			pkgName := ""
+			for _, l := range strings.Split(string(b), "\n") {
+				if strings.HasPrefix(l, "package ") {
+					pkgName = strings.Fields(l)[1]
+					break
+				}
+			}
+			if pkgName == "" {
+				return nil, fmt.Errorf("deleted file %s: no package clause", path)
+			}
+			ov[path] = []byte("package " + pkgName + "\n")
+			for i < len(lines) && !strings.HasPrefix(lines[i], "diff --git") && !strings.HasPrefix(lines[i], "--- ") {
+				i++
+			}
+			continue
 		}
 		path := filepath.Join(dir, strip(newName))
 		var src []string
